@@ -18,6 +18,8 @@ func init() {
 			t01 = append(t01, H{Pkg: "scipipe", Fn: "VxH01wf", Params: p("shape", sh, "two", two, "N", 60), MustReach: []string{"ran-returned", "ran-killed", "ran-exit"}, MustAssert: []string{"C01.final-path-absent-or-complete", "C01.all-outputs-present-on-success"}})
 		}
 	}
+	q01 = append(q01, H{Pkg: "components", Fn: "VxH01conc", Params: p("preempt", 2), MustReach: []string{"ran-returned", "ran-exit"}, MustAssert: []string{"C01.conc.final-path-absent-or-complete", "C01.conc.output-of-its-own-task"}})
+	t01 = append(t01, H{Pkg: "components", Fn: "VxH01conc", Params: p("preempt", 3), MustReach: []string{"ran-returned", "ran-exit"}, MustAssert: []string{"C01.conc.final-path-absent-or-complete", "C01.conc.output-of-its-own-task"}})
 	q01 = append(q01, H{Pkg: "scipipe", Fn: "VxH01go", Params: p("N", 12), MustReach: []string{"ran-killed"}})
 	t01 = append(t01, H{Pkg: "scipipe", Fn: "VxH01go", Params: p("N", 12), MustReach: []string{"ran-killed"}})
 	b01 := map[string]string{
@@ -26,9 +28,10 @@ func init() {
 		"command faults": "per declared write nothing/partial/complete, exit status 0..255 (255 = signal), for both commands",
 		"kill points":   "before every file-system effect of the run (up to 60; the harness asserts that the range covers the run)",
 		"rename order":  "iteration order of the output map in finalizePaths is a symbolic choice",
+		"concurrent tasks": "two tasks of one process (inputs a/x.txt, b/x.txt) on two slots, every file-system effect a scheduling point, up to 2 (thorough 3) solver-chosen deviations from the default schedule, both commands fail in any way",
 	}
 	regCheck(&Check{ID: "C01", Quick: q01, Thorough: t01, Bounds: b01,
-		Outside:     []string{"commands that escape their working directory on their own", "more than two tasks in flight at once (distinct temp dirs are C14)", "streaming outputs (C17)"},
+		Outside:     []string{"commands that escape their working directory on their own", "more than two tasks in flight at once; interleavings with more deviations (distinct temp dirs for all identities are C14)", "streaming outputs (C17)"},
 		Assumptions: append(append([]string{}, envAssumptions...), commonAssumptions[0], commonAssumptions[3]),
 		Stubs:       []string{"os.*, exec.Command, ioutil.*, filepath.Walk, json, time.Now, log, randSeqLC"}})
 	// C09 uses the same explorations with its own assertions
@@ -270,7 +273,11 @@ func init() {
 	var q, th []H
 	for sc := 0; sc <= 5; sc++ {
 		q = append(q, H{Pkg: "components", Fn: "VxH12", Params: p("scenario", sc, "preempt", 0), MustReach: []string{"analysed"}, MustAssert: []string{"C12.scenario-runs", "C12.conflicting-pair-ordered"}})
-		th = append(th, H{Pkg: "components", Fn: "VxH12", Params: p("scenario", sc, "preempt", 1), MustReach: []string{"analysed"}, MustAssert: []string{"C12.scenario-runs", "C12.conflicting-pair-ordered"}})
+		pre := 1
+		if sc == 0 || sc == 3 {
+			pre = 0 // the two largest traces are analysed on the default schedule only
+		}
+		th = append(th, H{Pkg: "components", Fn: "VxH12", Params: p("scenario", sc, "preempt", pre), MustReach: []string{"analysed"}, MustAssert: []string{"C12.scenario-runs", "C12.conflicting-pair-ordered"}})
 	}
 	q = append(q, H{Pkg: "scipipe", Fn: "VxSelfRace", Params: p("kind", 1), MustReach: []string{"done"}, MustAssert: []string{"selftest.race-count"}})
 	q = append(q, H{Pkg: "scipipe", Fn: "VxSelfRace", Params: p("kind", 2), MustReach: []string{"done"}, MustAssert: []string{"selftest.race-count"}})
@@ -281,7 +288,7 @@ func init() {
 			"scenarios": "six real workflows run by the real Workflow.Run: fan-out to two processes + fan-in; fan-out to MapToTags and a sibling consumer; streaming pair; multi-core tasks of two processes; FileSplitter output fanned out to two consumers; two tagged inputs merged while sibling components read the tags",
 			"trace":     "every load / store through a pointer, every map read / write and every JSON marshal traversal, per goroutine, plus every channel send / receive / close, mutex lock / unlock, go statement, WaitGroup event (1 100 - 3 900 events per run)",
 			"query":     "for every pair of conflicting accesses (same location, different goroutines, one a write, at least one in library code; 3 instances per pair of code sites): is there a total order of the synchronisation events consistent with program order, channel matching and capacity, recorded critical-section order and goroutine creation in which the two accesses are adjacent",
-			"schedule":  "quick: the default schedule of each scenario; thorough: plus every schedule with one deviation",
+			"schedule":  "quick: the default schedule of each scenario; thorough: plus every schedule with one deviation for four of the six scenarios",
 		},
 		Outside: []string{
 			"re-orderings that change a goroutine's control flow (the analysis keeps the recorded control flow of each goroutine; critical sections keep their recorded order)",
@@ -291,4 +298,13 @@ func init() {
 		},
 		Assumptions: append(append([]string{}, envAssumptions...), commonAssumptions[0], commonAssumptions[3], "Go memory model: a send happens before the corresponding receive completes, the k-th receive on a channel of capacity C happens before the (k+C)-th send completes, unlock happens before the next lock, the go statement happens before the goroutine starts"),
 		Stubs:       []string{"file system, command model; goroutines / channels / mutexes are interpreter objects whose operations are logged"}})
+}
+
+func finishRegistry() {
+	// model validation: concrete scenarios run in the interpreter on the environment model
+	// and natively (real bash, real file system); see cmd/verif/nv.go
+	for id, scs := range map[string][]int{"C01": {0, 5, 6}, "C02": {0}, "C03": {0, 5, 6}, "C09": {0}, "C04": {3}, "C05": {3}, "C16": {3}, "C08": {3},
+		"C10": {1, 5}, "C11": {1, 6}, "C12": {1}, "C17": {2}, "C19": {4}, "C18": {3}} {
+		checks[id].NV = scs
+	}
 }
